@@ -161,7 +161,7 @@ func (s *c12Scenario) world() *revWorld {
 			nr = 0
 		}
 		o, c := make([]int, nr), make([]int, nr)
-		shapes := [][2]int{{1, 2}, {0, 1}, {0, 0}, {2, 1}}
+		shapes := [][2]int{{1, 2}, {0, 2}, {0, 0}, {2, 1}}
 		for i := 0; i < nr; i++ {
 			o[i], c[i] = shapes[i%4][0], shapes[i%4][1]
 		}
